@@ -132,6 +132,19 @@ def run(ctx):
         parts_split = [re.split('-|(?<=\\d)(?=[a-z])', r[1]) if False else r[1].split('-') for r in S[1:]]
         add('split', 'rs expand 1 %s %s %s %s' % (proto.enc_bool(incl), proto.enc_row(['p', 'q']), proto.enc_table(S), proto.enc_table(parts_split)),
             lambda S=S, incl=incl: etl.split(S, 's', '-', ['p', 'q'], include_original=incl), dict(table=repr(S), include_original=incl), len(S) > 2)
+        # rarely used arguments: flags and maxsplit must reach the regular expression
+        parts_fl = [re.split('B', r[1], flags=re.I) for r in S[1:]]
+        add('split(flags)', 'rs expand 1 %s %s %s %s' % (proto.enc_bool(incl), proto.enc_row(['p', 'q']), proto.enc_table(S), proto.enc_table(parts_fl)),
+            lambda S=S, incl=incl: etl.split(S, 's', 'B', ['p', 'q'], include_original=incl, flags=re.I), dict(table=repr(S), include_original=incl, flags='re.I'), len(S) > 2)
+        parts_ms = [r[1].split('-', 1) for r in S[1:]]
+        add('split(maxsplit)', 'rs expand 1 %s %s %s %s' % (proto.enc_bool(incl), proto.enc_row(['p', 'q']), proto.enc_table(S), proto.enc_table(parts_ms)),
+            lambda S=S, incl=incl: etl.split(S, 's', '-', ['p', 'q'], include_original=incl, maxsplit=1), dict(table=repr(S), include_original=incl, maxsplit=1), len(S) > 2)
+        caps_fl = []
+        for r in S[1:]:
+            mm = re.search('([A-Z]+)(\\d*)', r[1], flags=re.I)
+            caps_fl.append(list(mm.groups()) if mm else ['NOMATCH', ''])
+        add('capture(flags)', 'rs expand 1 %s %s %s %s' % (proto.enc_bool(incl), proto.enc_row(['let', 'num']), proto.enc_table(S), proto.enc_table(caps_fl)),
+            lambda S=S, incl=incl: etl.capture(S, 's', '([A-Z]+)(\\d*)', ['let', 'num'], include_original=incl, fill=['NOMATCH', ''], flags=re.I), dict(table=repr(S), include_original=incl, flags='re.I'), len(S) > 2)
         add('splitdown', 'rs splitdown 1 %s %s' % (proto.enc_table(S), proto.enc_table(parts_split)), lambda S=S: etl.splitdown(S, 's', '-'), dict(table=repr(S)), len(S) > 2)
         caps = []
         for r in S[1:]:
